@@ -23,7 +23,7 @@ def is_known(ctx, key):
 @st.composite
 def map_cases(draw):
     fin = draw(st.sampled_from(["gro", "gro", "dump"]))
-    fout = draw(st.sampled_from(["gro", "dump"]))
+    fout = draw(st.sampled_from(["gro", "dump", "gro", "dump", "xyz", "pdb"]))
     tric = fin == "gro" and draw(st.booleans())
     ed = st.integers(30, 400)       # edge in 0.05 nm units: 1.5 .. 20 nm
     ax, by, cz = draw(ed) * 0.05, draw(ed) * 0.05, draw(ed) * 0.05
@@ -219,6 +219,32 @@ def parse_output(fout, path):
             frames.append(dict(x=X, v=V, f=None))
             p += n + 3
         return frames
+    if fout == "xyz":
+        # <n> / comment / n lines 'name%10.5f%10.5f%10.5f' in Angstrom
+        p = 0
+        while p < len(lines) and lines[p].strip():
+            n = int(lines[p])
+            rows = lines[p + 2:p + 2 + n]
+            X = np.array([[float(l[-30:-20]), float(l[-20:-10]), float(l[-10:])] for l in rows]).reshape(n, 3) * 0.1
+            frames.append(dict(x=X, v=None, f=None))
+            p += n + 2
+        return frames
+    if fout == "pdb":
+        # MODEL .. ENDMDL blocks, ATOM lines with %8.3f coordinates (columns 31-54) in Angstrom
+        cur = None
+        for l in lines:
+            if l.startswith("MODEL"):
+                cur = []
+            elif l.startswith("ATOM"):   # HETATM lines carry the orientation vectors of ellipsoidal beads (REU / REV), not beads
+                if cur is None:
+                    cur = []
+                cur.append([float(l[30:38]), float(l[38:46]), float(l[46:54])])
+            elif l.startswith("ENDMDL"):
+                frames.append(dict(x=np.array(cur).reshape(len(cur), 3) * 0.1, v=None, f=None))
+                cur = None
+        if cur:
+            frames.append(dict(x=np.array(cur).reshape(len(cur), 3) * 0.1, v=None, f=None))
+        return frames
     p = 0
     while p < len(lines) and lines[p].startswith("ITEM: TIMESTEP"):
         n = int(lines[p + 3])
@@ -314,13 +340,14 @@ def run_map(case, ctx, d):
         if len(G["x"]) != len(exp_x):
             return r.fail("csg_map/bead-count", f"frame {k}: {len(G['x'])} beads written, mapping defines {len(exp_x)}")
         # printed precision: .gro 3 decimals (nm) / 4 for velocities; .dump 6 decimals in Angstrom (x, v) and kcal/mol/A (f)
-        px = 0.5e-3 if case["fout"] == "gro" else 0.5e-7
+        # .xyz 5 decimals in Angstrom, .pdb 3 decimals in Angstrom
+        px = {"gro": 0.5e-3, "dump": 0.5e-7, "xyz": 0.5e-6, "pdb": 0.5e-4}[case["fout"]]
         tol = px * 1.02 + 1e-9 * (np.abs(exp_x).max() + 1)
         dev = np.abs(G["x"] - exp_x).max()
         if dev > tol:
             i = int(np.argmax(np.abs(G["x"] - exp_x).max(axis=1)))
             return r.fail("csg_map/position", f"frame {k} bead {i}: written {G['x'][i]}, expected {exp_x[i]} (tol {tol:.3g})")
-        if use_vel:
+        if use_vel and case["fout"] in ("gro", "dump"):
             if G["v"] is None:
                 return r.fail("csg_map/velocity-missing", f"frame {k}: --vel given, input has velocities, output has none")
             pv = 0.5e-4 if case["fout"] == "gro" else 0.5e-7
